@@ -153,7 +153,8 @@ func findClosest(query fastaio.EncodedFastaRecord, measure string, cIn chan fast
 			continue
 		}
 
-		if distance < closest.distance {
+		// an undefined distance (no jointly resolved site: NaN) ranks after every defined one
+		if distance < closest.distance || (math.IsNaN(closest.distance) && !math.IsNaN(distance)) {
 			snps = make([]string, 0)
 			for i, tNuc := range target.Seq {
 				if (query.Seq[i] & tNuc) < 16 {
@@ -162,7 +163,7 @@ func findClosest(query fastaio.EncodedFastaRecord, measure string, cIn chan fast
 			}
 			closest = resultsStruct{tname: target.ID, completeness: target.Score, distance: distance, snps: snps}
 
-		} else if distance == closest.distance {
+		} else if distance == closest.distance || (math.IsNaN(distance) && math.IsNaN(closest.distance)) {
 			if target.Score > closest.completeness {
 				snps = make([]string, 0)
 				for i, tNuc := range target.Seq {
